@@ -26,7 +26,7 @@ RULE = ('plan = store-building history under a scripted clock (steps of 0 '
         '0-2 Initial Date filters, offset/maximum in 0..n+1, under KMIP '
         '1.0-2.0. Non-trivial: >= 2 object types stored, a date tie or '
         'jump, and a request with >= 2 filters. Distinct = trace digest.')
-PROBES = ['attribute_edit_before_locate', 'undecodable_request', 'date_tie', 'backward_jump', 'two_date_filters', 'paged',
+PROBES = ['negative_paging_number', 'attribute_edit_before_locate', 'undecodable_request', 'date_tie', 'backward_jump', 'two_date_filters', 'paged',
           'filter_not_applicable_to_some_type', 'empty_result',
           'requester_with_groups', 'multi_filter', 'nonempty_result']
 REAL_VS_STUB = {
@@ -141,7 +141,10 @@ def gen_filters(r, ctx_objs_guess, ver):
         elif n == 'Cryptographic Length':
             v = r.choice([128, 192, 256, 1024, 64])
         elif n == 'Cryptographic Usage Mask':
-            v = r.choice([4, 8, 12, 1, 2, 0x200, 0x21c, 3])
+            v = r.choice([4, 8, 12, 1, 2, 0x200, 0x21c, 3, 4, 8, 12,
+                          # bits no usage mask value defines: no object has
+                          # them, so nothing matches
+                          0x40000000, 0x40000004, 0x100000, -1])
         elif n == 'Operation Policy Name':
             v = r.choice(['default', 'pA', 'pB', 'nosuch'])
         elif n == 'Object Group':
@@ -256,9 +259,9 @@ def generate(rng, tier, index):
         r.shuffle(fl)
         op = {'op': 'Locate', 'attrs': fl}
         if r.random() < 0.4:
-            op['max'] = r.choice([0, 1, 2, 3, 5, 13])
+            op['max'] = r.choice([0, 1, 2, 3, 5, 13, 1, 2, 3, -1, -2])
         if ver >= (1, 3) and r.random() < 0.4:
-            op['offset'] = r.choice([0, 1, 2, 3, 13])
+            op['offset'] = r.choice([0, 1, 2, 3, 13, 1, 2, -1, -2, -13])
         steps.append({'actor': a, 'ver': list(ver), 'items': [op],
                       'locate': True})
     return {'actors': actors, 'policies': policies,
@@ -362,6 +365,16 @@ def execute(plan):
                 # the decoder refused the request (e.g. a Certificate Type
                 # filter under KMIP 2.0): nothing for Locate to answer
                 probes['undecodable_request'] += 1
+                continue
+            neg = (op.get('offset') or 0) < 0 or (op.get('max') or 0) < 0
+            if neg:
+                # no slice corresponds to a negative number: refusal, or
+                # nothing at all - never objects
+                probes['negative_paging_number'] += 1
+                if it['status'] == 0 and it['payload'].get('uids'):
+                    flag('negative-paging-number-served', why=None,
+                         offset=op.get('offset'), maximum=op.get('max'),
+                         got=it['payload'].get('uids'))
                 continue
             if it['status'] != 0:
                 flag('locate-failed', why=it['reason_name'],
